@@ -230,7 +230,7 @@ def run_property(pid, tier="quick", seed=0, verbose=False):
     json.dump(ev, open(os.path.join(VERIF, "evidence", f"{pid}.json"), "w"), indent=1, default=str)
 
     # ---- verdict
-    if n_obl == 0 and spec.get("contracts"):
+    if n_obl == 0 and spec.get("contracts") and not unsupported:
         lines.append(f"CHECKER-ERROR property={pid}: zero obligations generated")
         code = 3 if not violations else 1
     elif violations:
